@@ -33,11 +33,13 @@ type simSensor struct {
 	val float64
 }
 
-func (s *simSensor) GetId() string                          { return s.id }
-func (s *simSensor) GetConfig() configuration.SensorConfig { return configuration.SensorConfig{ID: s.id} }
-func (s *simSensor) GetValue() (float64, error)            { return s.val, nil }
-func (s *simSensor) GetMovingAvg() float64                 { return s.val }
-func (s *simSensor) SetMovingAvg(v float64)                { s.val = v }
+func (s *simSensor) GetId() string { return s.id }
+func (s *simSensor) GetConfig() configuration.SensorConfig {
+	return configuration.SensorConfig{ID: s.id}
+}
+func (s *simSensor) GetValue() (float64, error) { return s.val, nil }
+func (s *simSensor) GetMovingAvg() float64      { return s.val }
+func (s *simSensor) SetMovingAvg(v float64)     { s.val = v }
 
 type stepPair struct {
 	Temp  int     `json:"temp"`
@@ -514,8 +516,8 @@ func TestC06(t *testing.T) { runProperty(t, "C06", genC06, runC06) }
 // ---- C07 A: monotonicity of curves --------------------------------------------------------------
 
 type c07aScenario struct {
-	Nodes  []curveNode `json:"nodes"`
-	GridMd int         `json:"gridMilliDeg"`
+	Nodes  []curveNode  `json:"nodes"`
+	GridMd int          `json:"gridMilliDeg"`
 	Pairs  [][2]float64 `json:"pairs"`
 }
 
